@@ -386,3 +386,41 @@ class CanaryPush76(_RawSerializeData):
     def post(self, c, I, out):
         if out.returned:
             yield "canary.bare_length_76", eq(out.value, Rope.of(bytes([76])) + as_rope(I.data))
+
+
+# ------------------------------------------------------------------------------------------ script builders (C05)
+BUILDERS = {"p2wsh_script": (32, lambda h: Rope.of(b"\x00\x20") + h),
+            "p2wpkh_script": (20, lambda h: Rope.of(b"\x00\x14") + h),
+            "p2sh_script": (20, lambda h: Rope.of(b"\xa9\x14") + h + Rope.of(b"\x87")),
+            "p2pkh_script": (20, lambda h: Rope.of(b"\x76\xa9\x14") + h + Rope.of(b"\x88\xac"))}
+
+
+class _Builder:
+    """C05: the script builder serialises to the standard scriptPubKey template"""
+    fname = "p2pkh_script"
+    props = ("C05",)
+
+    @property
+    def target(self):
+        return f"btc_hd_wallet.script.{self.fname}"
+
+    def run(self, ctx, f, args, kwargs, I):
+        sc = ctx.call_value(f, args, kwargs)
+        return ctx.call_value(ctx.getattr(sc, "raw_serialize"), [], {})
+
+    def run_real(self, f, rargs, rkw, I):
+        return f(*rargs, **rkw).raw_serialize()
+
+    def inputs(self, B):
+        n = BUILDERS[self.fname][0]
+        h = B.bytes("h", n)
+        return [h], {}, NS(h=as_rope(h))
+
+    def post(self, c, I, out):
+        yield "ensures.returns", out.returned
+        if out.returned:
+            yield "ensures.standard_template", eq(out.value, BUILDERS[self.fname][1](I.h))
+
+
+for _f in BUILDERS:
+    CONTRACTS.append(type("Builder_" + _f, (_Builder,), dict(fname=_f))())
